@@ -751,3 +751,102 @@ func RFlipAdd(c *core.Ctx) {
 		c.Anchor("a CharSet method appending to ranges/categories")
 	}
 }
+
+// ---------------------------------------------------------------------------
+// R-SENTINEL: "not found" is -1, and 0 is a position.
+// ---------------------------------------------------------------------------
+
+func RSentinel(c *core.Ctx) {
+	c.Rule("R-SENTINEL", "for every function of the module that returns an int index with the constant -1 as its 'not found' answer (and something computed otherwise), no caller separates found from not-found by comparing the result with 0 through <=, >, < 1 or >= 1: index 0 is a valid position and would be treated as 'not found'", 10)
+	p := c.P
+	sentinel := map[*ssa.Function]bool{}
+	for _, fn := range p.ModuleFuncs() {
+		res := fn.Signature.Results()
+		if res.Len() != 1 {
+			continue
+		}
+		if bt, ok := res.At(0).Type().Underlying().(*types.Basic); !ok || bt.Kind() != types.Int {
+			continue
+		}
+		neg, other, enum := false, false, false
+		for _, b := range fn.Blocks {
+			if r, ok := b.Instrs[len(b.Instrs)-1].(*ssa.Return); ok && len(r.Results) == 1 {
+				if k, isC := core.IntConst(r.Results[0]); isC {
+					if k == -1 {
+						neg = true
+					} else {
+						enum = true // other constant answers: an enumeration (-1/0/1), not an index
+					}
+				} else {
+					other = true
+				}
+			}
+		}
+		if neg && other && !enum {
+			sentinel[fn] = true
+		}
+	}
+	if len(sentinel) == 0 {
+		c.Anchor("functions returning -1 as 'not found'")
+		return
+	}
+	n := 0
+	for _, fn := range p.ModuleFuncs() {
+		name := core.SSAName(fn)
+		cnt := 0
+		for _, b := range fn.Blocks {
+			for _, ins := range b.Instrs {
+				call, ok := ins.(*ssa.Call)
+				if !ok {
+					continue
+				}
+				cal := call.Call.StaticCallee()
+				if cal == nil {
+					continue
+				}
+				if cal.Origin() != nil {
+					cal = cal.Origin()
+				}
+				if !sentinel[cal] {
+					continue
+				}
+				cnt++
+				n++
+				c.Visit(name)
+				bad := ""
+				for _, r := range core.Referrers(call) {
+					bin, ok := r.(*ssa.BinOp)
+					if !ok {
+						continue
+					}
+					x, y, op := bin.X, bin.Y, bin.Op
+					if y == ssa.Value(call) {
+						x, y = y, x
+						switch op {
+						case token.LSS:
+							op = token.GTR
+						case token.GTR:
+							op = token.LSS
+						case token.LEQ:
+							op = token.GEQ
+						case token.GEQ:
+							op = token.LEQ
+						}
+					}
+					if x != ssa.Value(call) {
+						continue
+					}
+					k, isC := core.IntConst(y)
+					if !isC {
+						continue
+					}
+					if (k == 0 && (op == token.LEQ || op == token.GTR)) || (k == 1 && (op == token.LSS || op == token.GEQ)) {
+						bad = fmt.Sprintf("result %s %d at %s", op, k, p.Pos(bin.Pos()))
+					}
+				}
+				c.Check(bad == "", fmt.Sprintf("%s / call #%d of %s tests its result against -1, not 0", name, cnt, core.SSAName(cal)), call.Pos(),
+					"%s returns -1 for 'not found' and a position otherwise; the test `%s` also rejects position 0", core.SSAName(cal), bad)
+			}
+		}
+	}
+}
